@@ -14,7 +14,8 @@ LEAN_MODULES = ["Clikit.Props.C01"]
 REQUIRED_THEOREMS = ["Clikit.Props.C01." + n for n in (
     "parse_spells", "spellings_agree", "opt_single_last_wins", "opt_multi_in_order", "opt_without_value", "positional_kth",
     "runSem_other_option", "option_short_eq_long", "argument_index_eq_name", "option_default_when_absent",
-    "argument_default_when_absent", "arguments_listing")]
+    "argument_default_when_absent", "arguments_listing",
+    "positionals_in_order", "command_names_realigned", "real_arguments_follow_typed_names")]
 TECHNIQUE = ("Lean 4 model of DefaultArgsParser/Args with theorems about the token loop and the accessors + "
              "differential correspondence on generated formats x spellings, oracle re-deriving the intended assignment")
 LEVEL_TEXT = ("Proved in Lean on the parser/Args model, for EVERY format, item list, spelling and both modes: parse_spells - "
